@@ -261,6 +261,19 @@ pub const CONDITIONAL_HEADERS: &[(&str, &str)] = &[
 /// loopback spellings
 pub const UNUSUAL_ORIGINS: &[&str] = &["null", "file://", "file:///C:/Users/x/page.html", "data:", "about:blank", "chrome-extension://abcdefghijklmnop", "moz-extension://4f3a-11e9", "app://local", "capacitor://localhost", "ionic://localhost", "http://localhost", "http://localhost:8080", "https://127.0.0.1:8443", "http://[::1]:3000", "http://xn--e1afmkfd.xn--p1ai", "HTTP://A.EXAMPLE", "https://a.example.", "http://a.example:80", "https://b.example:443", "http://user:pw@a.example", "blob:http://a.example/1234", "ws://a.example", "ftp://a.example"];
 
+/// request headers of newer protocols and of infrastructure, with values that enable something
+pub const SWITCH_HEADERS: &[(&str, &str)] = &[
+    ("Access-Control-Request-Private-Network", "true"), ("Access-Control-Request-Local-Network", "true"), ("Sec-Fetch-Storage-Access", "active"), ("Sec-Purpose", "prefetch;prerender"), ("Origin-Agent-Cluster", "?1"),
+    ("Sec-CH-UA-WoW64", "?1"), ("Sec-CH-UA-Form-Factors", "\"Desktop\""), ("Sec-Browsing-Topics", "();p=P0000000000000000000000000000000"), ("Attribution-Reporting-Eligible", "event-source"), ("Accept-Signature", "sig1=()"),
+    ("Signature-Input", "sig1=(\"@method\");created=1"), ("Content-Digest", "sha-256=:47DEQpj8HBSa+/TImW+5JCeuQeRkm5NMpJWZG3hSuFU=:"), ("Repr-Digest", "sha-256=:47DEQpj8HBSa+/TImW+5JCeuQeRkm5NMpJWZG3hSuFU=:"), ("Idempotency-Key", "\"8e03978e\""),
+    ("Traceparent", "00-4bf92f3577b34da6a3ce929d0e0e4736-00f067aa0ba902b7-01"), ("Tracestate", "a=1"), ("Baggage", "k=v"), ("X-B3-TraceId", "463ac35c9f6413ad"), ("X-Amzn-Trace-Id", "Root=1-5759e988-bd862e3fe1be46a994272793"),
+    ("X-Cloud-Trace-Context", "105445aa7843bc8bf206b12000100000/1;o=1"), ("CF-Ray", "230b030023ae2822-SJC"), ("CF-Visitor", "{\"scheme\":\"https\"}"), ("X-Real-IP", "203.0.113.7"), ("X-Forwarded-Ssl", "on"), ("Front-End-Https", "on"),
+    ("X-Debug", "1"), ("X-Debug", "true"), ("Debug", "1"), ("X-Verbose", "true"), ("X-Trace", "1"), ("X-No-Cache", "1"), ("X-Purge", "1"), ("X-Refresh", "true"), ("X-Admin", "true"), ("X-Internal", "1"), ("X-Test", "1"),
+    ("X-Download", "1"), ("X-Sendfile", "/etc/passwd"), ("X-Accel-Redirect", "/internal/secret"), ("X-Original-Method", "DELETE"), ("X-Method-Override", "PUT"), ("X-Rewrite-URL", "/../secret.txt"), ("X-Forwarded-Prefix", "/app"),
+    ("Accept-Push-Policy", "fast-load"), ("Sec-WebSocket-Version", "13"), ("Upgrade", "h2c"), ("HTTP2-Settings", "AAMAAABkAARAAAAAAAIAAAAA"), ("Alt-Used", "a.example:443"), ("Keep-Alive", "timeout=600"), ("Proxy-Connection", "keep-alive"),
+    ("Accept-Ranges", "none"), ("Vary", "*"), ("Cache-Control", "public, max-age=31536000"), ("X-Content-Type-Options", "off"), ("X-Frame-Options", "ALLOWALL"), ("Content-Security-Policy", "default-src *"),
+];
+
 /// extension methods a preflight may name
 pub const EXTENSION_METHODS: &[&str] = &["PROPFIND", "REPORT", "PURGE", "MKCOL", "LOCK", "SEARCH", "QUERY", "get", "Get", "", "GET,POST", "*", "BREW"];
 
